@@ -64,6 +64,67 @@ def check(run, prog):
         bad = meta_same(z, out)
         ck.same("R1", fi.where, "ledger " + tag, "type, sample rate, start time and frequency labels unchanged", out.cls is z.cls and not bad,
                 found="; ".join(bad) or obj_summary(out), nontrivial=True)
+    # ------------------------------------------------------------------ R1 per-element shifts (array shift, symbolic N), both back ends
+    import itertools
+    from fractions import Fraction
+    from .. import terms
+    arr_cases = [((2, 3), (2,), [Fraction(3, 2), Fraction(-2)]), ((2, 3), (2, 1), [Fraction(1), Fraction(-5, 2)]),
+                 ((2, 3), (1, 3), [Fraction(1, 2), Fraction(-1, 2), Fraction(3)]), ((2, 2), (2,), [Fraction(3, 2), Fraction(-2)]),
+                 ((2, 2), (1, 2), [Fraction(1, 2), Fraction(3)]), ((3,), (3,), [Fraction(1), Fraction(-7, 2), Fraction(2)]),
+                 ((2, 3, 2), (2, 3), [Fraction(1), Fraction(2), Fraction(-3), Fraction(1, 2), Fraction(-1, 2), Fraction(7)])]
+    n_arr = 0
+    for backend in ("numpy", "dask"):
+        for sample_shape, shp, vals in (arr_cases if backend == "numpy" else arr_cases[:2]):
+            z = make_signal(prog, "BasebandSignal", nchan=sample_shape[0], extra=sample_shape[1:], dtype="complex128", backend=backend)
+            tag = f"[{backend}, sample shape {sample_shape}, shift shape {shp} = {[str(v) for v in vals]} Hz]"
+            ev = ck.evaluator()
+            sh = NdArr(shp, [Num(sp.Rational(v.numerator, v.denominator) * Hz, kind="quantity", unit=Hz) for v in vals])
+            out = ck.attempt("R1", fi.where, "freq_shift(z, array) " + tag, "evaluates", lambda: ev.call(fi, [z, sh], {}), ev=ev, allowed_guards=[])
+            if out is None:
+                continue
+            d = out.attrs["_data"]
+            bm = [t for t in ev.trace if t[0] == "broadcast-mismatch"]
+            if bm:
+                ck.same("R1", fi.where, "array shift " + tag, "the shift array broadcasts against the sample shape (shift axis j <-> sample axis j)", False,
+                        found=str(bm)[:160], nontrivial=True)
+                continue
+            if not isinstance(d, Num) or d.axes is None or d.shape is None or len(d.axes) != 1 + len(sample_shape):
+                ck.unk("R1", fi.where, "array shift " + tag, "the shifted data is one indexed array term", repr(d)[:160])
+                continue
+            want_pos = {j + 1: k for j, k in enumerate(shp) if k > 1}
+            got_pos = {i: ev.index_len.get(a_) for i, a_ in enumerate(d.axes) if a_ is not None and a_ in d.expr.free_symbols and a_.name.startswith("e")}
+            ok_align = {i: sp.Integer(k) for i, k in want_pos.items()} == {i: sp.sympify(k) for i, k in got_pos.items()}
+            ck.same("R1", fi.where, "array shift alignment " + tag, "shift axis j applies along sample axis j (array axis j+1), length-1 and missing axes broadcast",
+                    ok_align, found=f"element indices on array axes {got_pos}", expected=str(want_pos), nontrivial=True)
+            if not ok_align:
+                continue
+            D = z.attrs["_data"].expr
+            nn = [s_ for s_ in d.expr.free_symbols if s_.name.startswith("n") and s_.name[1:].isdigit()]
+            if len(nn) != 1:
+                ck.unk("R1", fi.where, "array shift " + tag, "one time index in the mixer", str(d.expr)[:160])
+                continue
+            bad = None
+            for combo in itertools.product(*[range(k) for k in shp]):
+                sub = {d.axes[j + 1]: c for j, c in enumerate(combo) if shp[j] > 1}
+                e = d.expr.subs(sub)
+                e = e.replace(lambda t: t.func == F["Sel"] and t.args[0].is_Integer, lambda t: t.args[1 + int(t.args[0])])
+                flat = 0
+                for j, c in enumerate(combo):
+                    flat = flat * shp[j] + c
+                sv = sp.Rational(vals[flat].numerator, vals[flat].denominator)
+                Zs = F["FFTSHIFT"](F["FFT"](D * sp.exp(2 * sp.pi * sp.I * (sv / SR) * nn[0]), 0), F["Tup"](0))
+                exp_e = F["IFFT"](F["IFFTSHIFT"](Zs, F["Tup"](0)), 0)
+                v = terms.equal(e, exp_e, seed=run.seed)
+                if v.equal is not True:
+                    bad = (combo, str(e)[:140], v.equal)
+                    break
+            n_arr += 1
+            what = "for every element of the shift array the data of the elements it broadcasts to is mixed with exp(+2*pi*i*df_elem*t)"
+            if bad is None or bad[2] is False:
+                ck.same("R1", fi.where, "array shift values " + tag, what, bad is None, found=str(bad), nontrivial=True)
+            else:
+                ck.unk("R1", fi.where, "array shift values " + tag, what, str(bad))
+    run.floor("R1", "array-shift cases decided", n_arr, 6)
     # guards
     zr = make_signal(prog, "RadioSignal", nchan=2)
     zb = make_signal(prog, "BasebandSignal", nchan=2, n=16)
